@@ -551,7 +551,14 @@ func (w *Walker) calleePathEnvs(fr *Frame, cf CallFact) []map[string]bool {
 		if !ok {
 			continue
 		}
-		envs, complete := pathAssignments(g, r, func(v ssa.Value) string { return w.ts.Of(v, nfr).LooseString() })
+		nameOf := func(v ssa.Value) string { return w.ts.Of(v, nfr).LooseString() }
+		var envs []map[string]bool
+		var complete bool
+		if (cf.Outcome == "true" || cf.Outcome == "false") && len(r.Results) == 1 {
+			envs, complete = pathAssignmentsRet(g, r, cf.Outcome == "true", nameOf)
+		} else {
+			envs, complete = pathAssignments(g, r, nameOf)
+		}
 		if !complete {
 			return nil
 		}
